@@ -1833,6 +1833,12 @@ func generatePrefixStringTemplate(scope *parser.Scope) string {
 	vars := make([]interface{}, len(scope.Prefix.Variables))
 	for i, variable := range scope.Prefix.Variables {
 		vars[i] = fmt.Sprintf("$%s", variable)
+		if d := globals.TopicDelimiter; d != "" && (d[0] == '_' || d[0] == '$' || unicode.IsLetter(rune(d[0])) || unicode.IsDigit(rune(d[0]))) {
+			// A delimiter that starts with an identifier character (for
+			// example '_') would otherwise be read as part of the name of
+			// the variable it follows.
+			vars[i] = fmt.Sprintf("${%s}", variable)
+		}
 	}
 	template = fmt.Sprintf(template, vars...)
 	return template
